@@ -401,6 +401,7 @@ DEFAULT_PROFILE = dict(
     disp_prob=0,
     target_prob=0,
     infeasible_prob=15,    # percentage of general constraints generated with negative slack
+    radius_extreme=0,      # percentage of cases with a tiny / huge initial radius
     x0_huge=0,
 )
 
@@ -597,6 +598,11 @@ def problems(draw, profile=None):
                 options["radius_final"] = ri
     elif pct(P["opt_prob"] // 2):
         options["radius_final"] = draw(st.sampled_from([1e-6, 1e-3, 0.0625, 0.0]))
+    if pct(P.get("radius_extreme", 0)):
+        options["radius_init"] = draw(st.sampled_from([1e-200, 1e-12, 1e-5, 1e6]))
+        options.pop("radius_final", None)
+        if pct(50):
+            options["radius_final"] = draw(st.sampled_from([0.0, options["radius_init"], options["radius_init"] / 8]))
     if pct(P["scale_prob"]):
         options["scale"] = True
     if pct(P["opt_prob"] // 2):
